@@ -4,6 +4,7 @@
 -/
 import PygModel.Align
 import PygProofs.Lemmas.AlignLemmas
+import PygProofs.Lemmas.AlignAsOf
 import PygProofs.Lemmas.FillIndep
 
 namespace Pyg.Props.C03
@@ -41,12 +42,12 @@ theorem reindex_index (f : Frame) (idx : List Int) (m : Option Dir) :
   refine ⟨reindexFrame_idx f idx m, ?_, ?_⟩
   · cases m with
     | none => simp [reindexFrame, gatherOpt, Frame.names, List.map_map, Function.comp_def]
-    | some d => cases d <;> simp [reindexFrame, gatherOpt, Frame.names, Frame.gather, List.map_map, Function.comp_def]
+    | some d => simp [reindexFrame, Frame.names, List.map_map, Function.comp_def]
   · intro c hc
     rw [reindexFrame_idx]
     cases m with
     | none => simp only [reindexFrame, gatherOpt, List.mem_map] at hc; obtain ⟨c', _, rfl⟩ := hc; simp
-    | some d => cases d <;> simp only [reindexFrame, gatherOpt, List.mem_map] at hc <;> obtain ⟨c', _, rfl⟩ := hc <;> simp
+    | some d => simp only [reindexFrame, List.mem_map] at hc; obtain ⟨c', _, rfl⟩ := hc; simp [asofCol]
 
 /-- no fill method: every column is looked up label by label -/
 theorem reindex_values (f : Frame) (idx : List Int) :
@@ -74,25 +75,92 @@ theorem reindex_keep (ix : List Int) (c : Col) (hs : SortedL ix) (i : Nat) (t : 
 theorem reindex_missing (ix : List Int) (c : Col) (t : Int) (h : t ∉ ix) : valueAt ix c t = Option.none := by
   unfold valueAt; rw [(posOf_none ix t).mpr h]; rfl
 
-/-- ffill: rows that are entirely NaN are dropped first (`nonaFrame`, characterised by `nona_source`), then every
-requested label takes the row at the last remaining label at or before it (`asof_position`) -/
-theorem reindex_ffill (f : Frame) (idx : List Int) :
-    (reindexFrame f idx (some .ffill)).cols =
-      (nonaFrame f).cols.map fun c => (c.1, idx.map (asOfValue (nonaFrame f).idx c.2)) := by
-  simp [reindexFrame, gatherOpt, asOfValue, nonaFrame, List.map_map, Function.comp_def]
+/-- ffill (an as-of join, column by column): on a strictly increasing index every requested label `t` takes, in
+every column, `lastObs` = the cell at the right-most position whose label is `≤ t` and whose cell is not NaN
+(`last_observation` says so by positions); NaN when the column has no such observation.  `lastObs` is an independent
+reference (one scan over labels and cells, no NaN removal, no positions); the model removes the NaN cells of the
+column first (`obs`) and then looks up the as-of position (`asof_position`). -/
+theorem reindex_ffill (f : Frame) (idx : List Int) (hs : f.Sorted) :
+    (reindexFrame f idx (some .ffill)).cols = f.cols.map fun c => (c.1, idx.map (lastObs f.idx c.2)) := by
+  simp only [reindexFrame, asofCol_eq]
+  apply List.map_congr_left
+  intro c _
+  congr 1
+  apply List.map_congr_left
+  intro t _
+  exact asofAt_ffill f.idx c.2 t hs
 
+/-- bfill: the cell at the left-most position whose label is `≥ t` and whose cell is not NaN (`next_observation`) -/
 theorem reindex_bfill (f : Frame) (idx : List Int) :
-    (reindexFrame f idx (some .bfill)).cols =
-      (nonaFrame f).cols.map fun c => (c.1, idx.map (nextValue (nonaFrame f).idx c.2)) := by
-  simp [reindexFrame, gatherOpt, nextValue, nonaFrame, List.map_map, Function.comp_def]
+    (reindexFrame f idx (some .bfill)).cols = f.cols.map fun c => (c.1, idx.map (firstObs f.idx c.2)) := by
+  simp only [reindexFrame, asofCol_eq]
+  apply List.map_congr_left
+  intro c _
+  congr 1
+  apply List.map_congr_left
+  intro t _
+  exact asofAt_bfill f.idx c.2 t
 
-/-- the source of the as-of join: exactly the rows of the input holding a non-NaN cell (for a Series: its
-non-NaN observations), still sorted -/
-theorem nona_source (f : Frame) (hs : f.Sorted) :
-    (nonaFrame f).rows = f.rows.filter (fun r => r.2.any (·.isSome)) ∧ (nonaFrame f).Sorted ∧ (nonaFrame f).Rect :=
-  ⟨Frame.rows_gather_valid f,
-   sorted_gather f.idx hs _ (filter_range_pairwise _ _) (filter_range_bound _ _),
-   Frame.rect_gather _ _⟩
+/-- what `lastObs` is, by positions: `v` sits at a position `i` with label `≤ t`, and no later position with a label
+`≤ t` holds a value -/
+theorem last_observation (ix : List Int) (c : Col) (t v : Int) :
+    lastObs ix c t = some v ↔
+      ∃ (i : Nat) (s : Int), ix[i]? = some s ∧ s ≤ t ∧ c[i]? = some (some v) ∧
+        ∀ (j : Nat) (s' w : Int), i < j → ix[j]? = some s' → s' ≤ t → c[j]? ≠ some (some w) :=
+  lastObs_iff ix c t v
+
+theorem next_observation (ix : List Int) (c : Col) (t v : Int) :
+    firstObs ix c t = some v ↔
+      ∃ (i : Nat) (s : Int), ix[i]? = some s ∧ t ≤ s ∧ c[i]? = some (some v) ∧
+        ∀ (j : Nat) (s' w : Int), j < i → ix[j]? = some s' → t ≤ s' → c[j]? ≠ some (some w) :=
+  firstObs_iff ix c t v
+
+/-- the composed statement for ONE cell of the result: column number `j`, requested label `idx[k] = t`.  The cell is
+the value `v` iff `v` is the column's last non-NaN observation at or before `t`; it is NaN iff there is none. -/
+theorem reindex_ffill_cell (f : Frame) (idx : List Int) (hs : f.Sorted) (j k : Nat) (c : String × Col) (t : Int)
+    (hc : f.cols[j]? = some c) (hk : idx[k]? = some t) :
+    ∃ r, (reindexFrame f idx (some .ffill)).cols[j]? = some (c.1, r) ∧ r.length = idx.length ∧
+      (∀ v, r[k]? = some (some v) ↔
+        ∃ (i : Nat) (s : Int), f.idx[i]? = some s ∧ s ≤ t ∧ c.2[i]? = some (some v) ∧
+          ∀ (j' : Nat) (s' w : Int), i < j' → f.idx[j']? = some s' → s' ≤ t → c.2[j']? ≠ some (some w)) ∧
+      (r[k]? = some Option.none ↔ lastObs f.idx c.2 t = Option.none) := by
+  refine ⟨idx.map (lastObs f.idx c.2), ?_, by simp, ?_, ?_⟩
+  · rw [reindex_ffill f idx hs]; simp [hc]
+  · intro v; rw [← lastObs_iff]; simp [hk]
+  · simp [hk]
+
+theorem reindex_bfill_cell (f : Frame) (idx : List Int) (j k : Nat) (c : String × Col) (t : Int)
+    (hc : f.cols[j]? = some c) (hk : idx[k]? = some t) :
+    ∃ r, (reindexFrame f idx (some .bfill)).cols[j]? = some (c.1, r) ∧ r.length = idx.length ∧
+      (∀ v, r[k]? = some (some v) ↔
+        ∃ (i : Nat) (s : Int), f.idx[i]? = some s ∧ t ≤ s ∧ c.2[i]? = some (some v) ∧
+          ∀ (j' : Nat) (s' w : Int), j' < i → f.idx[j']? = some s' → t ≤ s' → c.2[j']? ≠ some (some w)) ∧
+      (r[k]? = some Option.none ↔ firstObs f.idx c.2 t = Option.none) := by
+  refine ⟨idx.map (firstObs f.idx c.2), ?_, by simp, ?_, ?_⟩
+  · rw [reindex_bfill f idx]; simp [hc]
+  · intro v; rw [← firstObs_iff]; simp [hk]
+  · simp [hk]
+
+/-- with a fill method, too, a non-NaN cell at a timestamp the series has is kept (it is its own last and next
+observation) -/
+theorem reindex_fill_keeps (ix : List Int) (c : Col) (hs : SortedL ix) (i : Nat) (t v : Int)
+    (hi : ix[i]? = some t) (hv : c[i]? = some (some v)) :
+    lastObs ix c t = some v ∧ firstObs ix c t = some v := by
+  have hp := List.pairwise_iff_getElem.mp hs
+  have hil := getElem?_some_lt hi
+  constructor
+  · refine (lastObs_iff ix c t v).mpr ⟨i, t, hi, Int.le_refl _, hv, ?_⟩
+    intro j s' w hj hjs hle
+    have hjl := getElem?_some_lt hjs
+    have := hp i j hil hjl hj
+    rw [List.getElem?_eq_getElem hil] at hi; rw [List.getElem?_eq_getElem hjl] at hjs
+    simp at hi hjs; omega
+  · refine (firstObs_iff ix c t v).mpr ⟨i, t, hi, Int.le_refl _, hv, ?_⟩
+    intro j s' w hj hjs hle
+    have hjl := getElem?_some_lt hjs
+    have := hp j i hjl hil hj
+    rw [List.getElem?_eq_getElem hil] at hi; rw [List.getElem?_eq_getElem hjl] at hjs
+    simp at hi hjs; omega
 
 /-- as-of position on a sorted index: the LAST label `≤ t`; none iff every label is later than `t` -/
 theorem asof_position (ix : List Int) (hs : SortedL ix) (t : Int) :
@@ -244,6 +312,12 @@ example : let f : Frame := { idx := [1, 2, 5], cols := [("", [some 10, Option.no
     (reindexFrame f [0, 1, 2, 3, 5, 9] (some .ffill)).cols = [("", [Option.none, some 10, some 10, some 10, some 30, some 30])] ∧
     (reindexFrame f [0, 1, 2, 3, 5, 9] (some .bfill)).cols = [("", [some 10, some 10, some 30, some 30, some 30, Option.none])] ∧
     (reindexFrame f [0, 1, 2, 3, 5, 9] Option.none).cols = [("", [Option.none, some 10, Option.none, Option.none, some 30, Option.none])] := by
+  decide
+/-- the as-of join is per column: a frame whose rows are only partly NaN (C03-A2: the unrepaired code joined whole rows
+and returned `a = [1, NaN, NaN]`) -/
+example : let f : Frame := { idx := [0, 1], cols := [("a", [some 1, Option.none]), ("b", [Option.none, some 2])] }
+    (reindexFrame f [0, 1, 2] (some .ffill)).cols = [("a", [some 1, some 1, some 1]), ("b", [Option.none, some 2, some 2])] ∧
+    (reindexFrame f [0, 1, 2] (some .bfill)).cols = [("a", [some 1, Option.none, Option.none]), ("b", [some 2, some 2, Option.none])] := by
   decide
 example : alignArr 2 [some 1, some 2, some 3] = [some 2, some 3] ∧
     alignArr 4 [some 1, some 2] = [Option.none, Option.none, some 1, some 2] ∧ alignArr 0 [some 1] = [] := by decide
